@@ -81,6 +81,12 @@ let c19_commit_mode m body =
        | SPanic -> "panic")
   | _ -> failwith "c19-commit: bad case"
 
+(* in: RANGE (l...)   out: n     (the list must be strictly increasing, as after sort + dedup) *)
+let c19_overlap body =
+  match parse_many body with
+  | [r; ls] -> ni (overlap_len (range_of r) (List.map (fun l -> n_of_int (num l)) (list ls)))
+  | _ -> failwith "c19-overlap: bad case"
+
 let () = run_driver
-    ["c19-stats", c19_stats_mode Checked; "c19-stats-wrap", c19_stats_mode Wrapping;
+    ["c19-overlap", c19_overlap; "c19-stats", c19_stats_mode Checked; "c19-stats-wrap", c19_stats_mode Wrapping;
      "c19-commit", c19_commit_mode Checked; "c19-numstat", c19_numstat_mode Checked; "c19-numstat-wrap", c19_numstat_mode Wrapping] []
